@@ -6,6 +6,7 @@ import (
 	"math"
 	"math/rand"
 	"os"
+	"strings"
 
 	"github.com/holiman/uint256"
 	rctypes "github.com/rigochain/rigo-go/ctrlers/types"
@@ -245,6 +246,23 @@ func (h *hostileRun) hostileSigned() [][]byte {
 		from := 1 + rng.Intn(5)
 		tx := web3.NewTrxSetDoc(kr.Addr(from), s.nonce(from), s.gas(), s.price(), string(randBytes(rng, []int{0, 1, 2048, 2049, 100000}[rng.Intn(5)])), string(randBytes(rng, rng.Intn(3000))))
 		sign(tx, from)
+	}
+	// valid UTF-8 around the 2048 limit of names and documents, counted in bytes and in characters: multi-byte characters
+	// that end at, straddle or start at byte 2048
+	for i := 0; i < 4; i++ {
+		from := 1 + rng.Intn(5)
+		ch := []string{"\u00e9", "\u20ac", "\U0001d11e"}[rng.Intn(3)] // 2, 3 and 4 bytes
+		target := 2045 + rng.Intn(8)                                  // bytes
+		n := target / len(ch)
+		str := strings.Repeat("a", target-n*len(ch)) + strings.Repeat(ch, n)
+		if rng.Intn(3) == 0 {
+			str = strings.Repeat(ch, 2048) // 2048 characters, far more bytes
+		}
+		name, url := str, "u"
+		if rng.Intn(2) == 0 {
+			name, url = "n", str
+		}
+		sign(web3.NewTrxSetDoc(kr.Addr(from), s.nonce(from), s.gas(), s.price(), name, url), from)
 	}
 	// payload of another type / type code outside 1..8, signed
 	for i := 0; i < 6; i++ {
